@@ -13,6 +13,7 @@ Inductive libcall :=
 | MtxLock | MtxTryLock | MtxUnlock
 | SemSignal | SemWait | SemWaitT (ms : Z) | SemTryWait
 | ThStart (c : tid) | ThJoin (c : tid)
+| ThStartF (c : tid)      (* Thread::start whose pthread_create FAILS (EAGAIN: transient lack of resources) - the failing outcome is an input of the scenario *)
 | CsEnter | CsLeave.
 
 Inductive event :=
